@@ -91,13 +91,15 @@ CLAIMED = {
              "unit of the request and exactly the requested concentration as read back from its contents; every substance but the solvent is "
              "conserved over residual + new solution and the solvent only grows; what left the source is a uniform aliquot; all outputs satisfy "
              "the invariant. Supporting theorems: the 2x2 system by unit, aliquots keep intensive quantities, negative solutions (targets above "
-             "the stock) are refused. Container solvent: invariants proved, quantity/concentration/conservation by correspondence + oracle (partial).",
+             "the stock) are refused. Container solvent (csf_c_sound): the same for a solvent CONTAINER that may itself hold the solute -- requested "
+             "total and concentration, conservation of every substance over the three outputs, uniform aliquots of both inputs, invariants.",
              technique="Coq proof over Q (2x2 exact solve soundness + aliquot lemma + field); differential correspondence; read-back and conservation oracle",
              design="5 C12"),
  'C18': dict(text="Theorems (any two configurations: any supported prefix or none for the moles and the volume storage unit): a simulation relation R "
              "between runs; construction, _self_add, transfer, remove, fill_to take the same decision (same error class) and yield R-related "
              "results; by induction every script of container operations does (crun_R); on R-related states get_volume, get_concentration, "
-             "per-substance amounts and totals in every user unit coincide. Dilute / solutions / plates / recipes / tracking queries are covered by "
+             "per-substance amounts and totals in every user unit coincide. Extended to whole programs (run_R): plates in every transfer form, remove "
+             "and fill_to on regions, dilute, create_solution with a pure solvent. Solutions from containers, recipes and tracking queries are covered by "
              "the correspondence: the same generated scripts run in SEPARATE PROCESSES under 7-9 configurations (uL/umol, mL/mmol, nmol, mol, "
              "L, daL, precision 12) are compared pairwise in user units and each against the model under the matching cfg (partial for those).",
              technique="Coq proof (simulation between configurations, induction over scripts); multi-process differential correspondence across configurations",
@@ -126,8 +128,10 @@ CLAIMED = {
  'C19': dict(text="Theorems (every magnitude incl. sub-micro, every incoming prefix, every substance kind, every configuration): "
              "get_human_readable_unit returns a (value, prefix) pair denoting exactly |v| in the incoming unit, with value >= 1 unless the micro "
              "prefix is reached, and in [1,1000) for amounts from 1e-6 to 1 base units; convert_from_storage_to_standard_format returns "
-             "exactly the stored amount in g / L / U. The instruction TEXTS (constructor, transfer, fill_to, dilute, create_solution_from, "
-             "recipe fill/dilute steps) are checked against the actual deltas by an oracle on the implementation (testing; partial).",
+             "exactly the stored amount in g / L / U. The amounts stated by the instruction lines of transfer (volume of a liquid-holding source, "
+             "mass otherwise), fill_to and dilute are modelled (Instr2.v) and proved equal to the amounts moved / added; they are compared with the "
+             "parsed instruction lines on every run. The remaining texts (create_solution_from, plate-to-plate naming, recipe step instructions) "
+             "are checked against the actual deltas by an oracle on the implementation only (partial).",
              technique="Coq proof over Q (case analysis of the rescaling cascade, field); enumerated correspondence over magnitudes x prefixes x kinds; instruction-text read-back oracle",
              design="5 C19"),
  'C04': dict(text="Theorems over an object-level model (Heap.v: containers, well arrays, plates and slice objects as cells of a heap; deepcopy = "
